@@ -434,81 +434,101 @@ def r3_store_energies(ctx, cf):
 
 # ---------------------------------------------------------------------------------------------------
 def r4_sentinels(ctx, rule):
-    """Shared by C14-R4 and C15-R2."""
+    """Shared by C14-R4 and C15-R2.  Every function that reads coordinates through the backbone index tables is evaluated by value numbering
+    (sa/symval.py) for one generic iteration of each of its loops, ks_donor_acceptor expanded inside kabsch_sander.  Each read xyz[.. T[k] ..]
+    through an index table T (nco_indices: three entries per residue, ca_indices: one) is taken with the conditions in force where it is made:
+    the residue r that entry k belongs to must have been established as not skipped (`skip[r] == 0`), or the loaded index itself must have
+    been tested (>= 0 / != -1).  Neither the names of locals nor the way the position is addressed (xyz[3*i+c], a pointer xyz + 3*i) matter."""
+    from ..symval import SymExec, State, Ptr, Unsupported, elementary_facts, has_fact
+    from ..poly import Poly, Rat
     cf = C.get(ctx.repo)
-    sites = [(GEO, "ks_assign_hydrogens"), (GEO, "ks_donor_acceptor"), (GEO, "kabsch_sander"), (DSSP, "calculate_bends")]
+    # function: (position of xyz, {position of an index table: entries per residue}, position of skip or None, callees expanded)
+    sites = [(GEO, "ks_assign_hydrogens", 0, {1: 3}, 4), (GEO, "kabsch_sander", 0, {1: 3, 2: 1}, None), (DSSP, "calculate_bends", 0, {1: 1}, 4)]
+    var = lambda n_: Rat(Poly.var(n_))     # noqa: E731
     total = 0
-    for rel, fname in sites:
+    for rel, fname, xpos, tables, skippos in sites:
         ctx.analysed_files.add(rel)
         fn = cf.function(rel, fname)
         ctx.analysed_functions.add(rel + ":" + fname)
-        g = C.guards(fn)
-        params = [p.get("name") for p in C.fparams(fn)]
-        # local int variables loaded from the index tables
-        loaded = {}
+        ps = C.fparams(fn)
+        pn = [p_.get("name") for p_ in ps]
+        xyz = pn[xpos]
+        tabs = {pn[k]: stride for k, stride in tables.items()}
+        lvs = set()
         for n in C.walk(fn):
-            if n["kind"] == "VarDecl" and C.kids(n):
-                t = re.sub(r"\s", "", C.text(C.kids(n)[-1]))
-                m = re.match(r"^(nco_indices|ca_indices)\[(.*)\]$", t)
-                if m:
-                    loaded[n.get("name")] = (m.group(1), m.group(2))
-        seen = set()
-        for n in C.walk(fn):
-            # xyz[<index>] or the pointer xyz + <index> (a position loaded through a pointer to its first component)
-            if n["kind"] == "ArraySubscriptExpr":
-                ks = C.kids(n)
-            elif n["kind"] == "BinaryOperator" and n.get("opcode") == "+" and "*" in C.qtype(n):
-                ks = C.kids(n)
-                if C.ref_name(ks[0]) != "xyz" and C.ref_name(ks[1]) == "xyz":
-                    ks = [ks[1], ks[0]]
-            else:
-                continue
-            base = C.ref_name(ks[0])
-            if base != "xyz":
-                continue
-            idx = re.sub(r"\s", "", C.text(ks[1]))
-            # which residue does the index come from?
-            res = None
-            via = None
-            m = re.search(r"nco_indices\[\(?\(?3\*([^)\]]+?)\)?(?:\+\d)?\)?\]", idx)
-            if m:
-                res, via = m.group(1), "nco_indices"
-            m0 = re.search(r"nco_indices\[(\d+)\]", idx)
-            if res is None and m0:
-                res, via = str(int(m0.group(1)) // 3), "nco_indices"
-            m2 = re.search(r"ca_indices\[([^\]]+)\]", idx)
-            if res is None and m2:
-                res, via = m2.group(1), "ca_indices"
-            var = None
-            if res is None:
-                for v, (tab, inner) in loaded.items():
-                    if re.search(r"\b%s\b" % re.escape(v), idx):
-                        var = v
-                        mm = re.search(r"3\*\(?([^)+]+(?:-1)?)\)?", inner) if tab == "nco_indices" else None
-                        res = (mm.group(1) if mm else inner)
-                        via = tab
-            if res is None:
-                continue
-            res = res.strip("()")
-            key = (fname, via, res, var)
-            if key in seen:
-                continue
-            seen.add(key)
+            if n["kind"] == "ForStmt":
+                init = [x for x in n.get("inner", []) if isinstance(x, dict) and "kind" in x]
+                if init and init[0].get("kind") == "DeclStmt":
+                    lvs |= {v.get("name") for v in C.kids(init[0]) if v["kind"] == "VarDecl"}
+        skipname = {"v": pn[skippos] if skippos is not None else None}
+
+        def model(name, args, n, st, ex):
+            if name == "ks_assign_hydrogens":
+                # analysed on its own; here it only tells which local is the skip array (its last argument)
+                a_ = args[-1]
+                if isinstance(a_, Ptr):
+                    skipname["v"] = a_.base
+                return Rat(Poly.const(0))
+            if name == "store_energies":
+                return Rat(Poly.const(0))
+            return None
+        ex = SymExec(cf, rel, call_model=model, symbolic_loops=lvs)
+        st = State()
+        for p_ in ps:
+            st.env[p_.get("name")] = Ptr(p_.get("name"), 0) if ("*" in C.qtype(p_) or "&" in C.qtype(p_)) else st.sym(p_.get("name"))
+        try:
+            outs = ex.run(C.kids(C.body_of(fn)), st)
+        except Unsupported as e:
+            ctx.undecided(rule, C.line(fn), rel, fname, "reads through the index tables", "not evaluable: %s" % e)
+            continue
+        offvals = ex.__dict__.get("offvals", {})
+        seen = {}
+        for o in outs:
+            for (key, ncond) in o.reads:
+                if key[0] != xyz or isinstance(key[1], int):
+                    continue
+                off = offvals.get(key[1])
+                if off is None:
+                    continue
+                for v in sorted(off.vars()):
+                    tname = next((t for t in tabs if str(v).startswith(t + "[")), None)
+                    if tname is None:
+                        continue
+                    inner = offvals.get(str(v)[len(tname) + 1:-1])
+                    if inner is None:
+                        c_ = str(v)[len(tname) + 1:-1]
+                        inner = Rat(Poly.const(int(c_))) if c_.lstrip("-").isdigit() else None
+                    if inner is None:
+                        continue
+                    stride = tabs[tname]
+                    res = None
+                    for c_ in range(stride):
+                        cand = (inner - c_) / stride
+                        pc = cand.poly()
+                        if pc is not None and all(cf_.denominator == 1 for cf_ in pc.t.values()):
+                            res = cand
+                            break
+                    if res is None:
+                        continue
+                    facts = []
+                    for (cv, pol), (txt, _p) in list(zip(o.cexprs, o.cvals))[:ncond]:
+                        facts += elementary_facts(ex, cv if cv is not None else txt, pol)
+                    idx = var(str(v))
+                    sk = var("%s[%s]" % (skipname["v"], repr(res))) if skipname["v"] else None
+                    by_skip = sk is not None and has_fact(facts, "==", sk)
+                    by_test = has_fact(facts, "<=", Rat(Poly.const(0)) - idx) or has_fact(facts, "<", Rat(Poly.const(-1)) - idx) or has_fact(facts, "!=", idx + 1)
+                    k2 = (tname, repr(res))
+                    ent = seen.setdefault(k2, {"ok": True, "why": None, "how": set()})
+                    if by_skip or by_test:
+                        ent["how"].add("under !%s[%s]" % (skipname["v"], repr(res)) if by_skip else "index tested")
+                    else:
+                        ent["ok"] = False
+                        ent["why"] = ent["why"] or [t for t, _p in o.cvals[:ncond]][-3:]
+        for (tname, res), ent in sorted(seen.items()):
             total += 1
-            facts = g.get(n["id"], [])
-            desc = "xyz[... %s[%s] ...]" % (via, res) + (" via %s" % var if var else "")
-            ok = ("skip[%s]" % res, False) in facts or ("skip[(%s)]" % res, False) in facts
-            if not ok and var:
-                ok = any((t in ("(%s<0)" % var, "(%s==(-1))" % var, "(%s==-1)" % var) and not p) or (t in ("(%s>=0)" % var,) and p) for t, p in facts)
-            if not ok and res in params:
-                # residue index is a parameter: the callers carry the obligation (checked at the call sites below)
-                ok = _callers_guard(ctx, cf, rel, fname, params.index(res), rule)
-                why = "guarded at every call site"
-            else:
-                why = "under !skip[%s]" % res if not var else "under a guard on skip[%s] or on %s" % (res, var)
-            ctx.decide(ok, rule, C.line(n), rel, fname, desc, why,
-                       "coordinates are read through %s[%s] without a guard against the -1 sentinel of an incomplete residue (guards in effect: %s): "
-                       "xyz[-3..-1] is read for a residue that follows / neighbours an incomplete one" % (via, res, [t for t, p in facts][-3:]))
+            ctx.decide(ent["ok"], rule, C.line(fn), rel, fname, "xyz[... %s[residue %s] ...]" % (tname, res), ", ".join(sorted(ent["how"])),
+                       "coordinates are read through %s of residue %s on a path where neither !skip[%s] nor a test of the loaded index is in force (conditions: %s): "
+                       "xyz[-3..-1] is read for a residue that follows / neighbours an incomplete one" % (tname, res, res, ent["why"]))
     if total < 8:
         raise AnalysisError("%s: only %d sentinel-indexed coordinate accesses found" % (rule, total))
 
@@ -637,55 +657,80 @@ def _close_forms(a, b, tol=1e-5):
 
 
 def r3_hydrogen_value(ctx):
-    """Value numbering of the residue loop of ks_assign_hydrogens: H = N + 0.1 (C' - O')/|C' - O'| with C', O' of the previous residue, or H = N when they are missing; nothing is stored for a skipped residue."""
-    from ..symval import SymExec, State, Ptr, Vec, Unsupported
+    """Value numbering of the residue loop of ks_assign_hydrogens: H = N + 0.1 (C' - O')/|C' - O'| with C', O' of the previous residue, or H = N when they are missing; nothing is stored for
+    a skipped residue.  The conditions of each path are decoded from their values (`pc < 0 || po < 0` taken and `pc >= 0 && po >= 0` not taken are the same fact)."""
+    from ..symval import SymExec, State, Ptr, Vec, Unsupported, elementary_facts, has_fact
     from ..poly import Poly, Rat
     cf = C.get(ctx.repo)
     fn = cf.function(GEO, "ks_assign_hydrogens")
+    pn = [p_.get("name") for p_ in C.fparams(fn)]
+    if len(pn) != 5:
+        raise AnalysisError("ks_assign_hydrogens: %d parameters (5 expected)" % len(pn))
+    xyz, nco, _nres, hco, skip = pn
     loops = [n for n in C.walk(fn) if n["kind"] == "ForStmt"]
     if not loops:
         raise AnalysisError("ks_assign_hydrogens: residue loop not found")
-    lb = [x for x in loops[0]["inner"] if isinstance(x, dict) and x.get("kind") == "CompoundStmt"][0]
+    parts = [x if isinstance(x, dict) and "kind" in x else None for x in loops[0].get("inner", [])]
+    init, inc, lb = parts[0], parts[-2], parts[-1]
+    rv = None
+    if init is not None and init.get("kind") == "DeclStmt":
+        rv = next((v.get("name") for v in C.kids(init) if v["kind"] == "VarDecl"), None)
+    if rv is None or lb is None:
+        raise AnalysisError("ks_assign_hydrogens: residue loop variable not recognised")
     ex = SymExec(cf, GEO)
     st = State()
-    st.env["ri"] = Rat(Poly.var("ri"))
-    st.env["hcoords"] = Ptr("H", 0)
+    st.env[rv] = Rat(Poly.var(rv))
+    st.env[hco] = Ptr("H", 0)
+    for p_ in (xyz, nco, skip):
+        st.env[p_] = Ptr(p_, 0)
     try:
-        outs = ex.run(C.kids(lb), st)
+        outs = ex.run(C.kids(lb) if lb.get("kind") == "CompoundStmt" else [lb], st)
+        for o in outs:
+            o.loopctl = None
+            if inc is not None:
+                ex.expr(inc, o)         # `++ri, hcoords += 4` in the loop header belongs to the iteration
     except Unsupported as e:
         ctx.undecided("C14-R3", C.line(fn), GEO, "ks_assign_hydrogens", "hydrogen position normal form", "not evaluable: %s" % e)
         return
+    var = lambda n_: Rat(Poly.var(n_))     # noqa: E731
+    ri = var(rv)
 
-    def X(idx_expr, k):
-        off = ("%d + " % k) if k else ""
-        return Rat(Poly.var("xyz[%s3*nco_indices[%s]]" % (off, idx_expr)))
-    N = [X("3*ri", k) for k in range(3)]
-    Cp = [X("-2 + 3*ri", k) for k in range(3)]
-    Op = [X("-1 + 3*ri", k) for k in range(3)]
+    def tab(k):
+        return var("%s[%s]" % (nco, repr(3 * ri + k)))
+
+    def X(idx, k):
+        return var("%s[%s]" % (xyz, repr(3 * idx + k)))
+    N = [X(tab(0), k) for k in range(3)]
+    pc, po = tab(-2), tab(-1)
+    Cp = [X(pc, k) for k in range(3)]
+    Op = [X(po, k) for k in range(3)]
     d = [Cp[k] - Op[k] for k in range(3)]
     norm = ex.opaque_call("sqrt", [d[0] * d[0] + d[1] * d[1] + d[2] * d[2]])
+    sk = var("%s[%s]" % (skip, rv))
+    zero = Rat(Poly.const(0))
     seen = {"on_N": 0, "oriented": 0, "skipped": 0}
     for o in outs:
         H = [o.env.get(("H", k)) for k in range(3)]
-        adv = o.env.get("hcoords")
+        adv = o.env.get(hco)
         ok_adv = isinstance(adv, Ptr) and adv.off == 4
-        conds = dict(o.conds)
+        facts = []
+        for (cv, pol), (txt, _p) in zip(o.cexprs, o.cvals):
+            facts += elementary_facts(ex, cv if cv is not None else txt, pol)
+        shown = [(t[:50], p_) for t, p_ in o.cvals]
         if all(h is None for h in H):
             seen["skipped"] += 1
-            ctx.decide(ok_adv and conds.get("(!skip[ri])") is False, "C14-R3", C.line(fn), GEO, "ks_assign_hydrogens", "skipped residue: nothing stored, pointer advances by 4", "", "path %s stores nothing" % o.conds)
+            ctx.decide(ok_adv and has_fact(facts, "!=", sk), "C14-R3", C.line(fn), GEO, "ks_assign_hydrogens", "skipped residue: nothing stored, pointer advances by 4", "", "path %s stores nothing%s" % (shown, "" if ok_adv else " and leaves the output pointer at %r" % (adv,)))
         elif all(H[k] is not None and H[k] == N[k] for k in range(3)):
             seen["on_N"] += 1
-            cv = [re.sub(r"\s", "", c) for c, p_ in o.cvals if p_ and "<" in c]
-            pc, po = "(nco_indices[-2+3*ri]<0)", "(nco_indices[-1+3*ri]<0)"
-            exact = cv in (["(%s||%s)" % (pc, po)], ["(%s||%s)" % (po, pc)])
+            ors = [f for f in facts if f[0] == "or"]
+            exact = has_fact(facts, "==", sk) and len(ors) == 1 and sorted(repr(sorted(map(repr, alt))) for alt in ors[0][1]) == sorted(repr(sorted(map(repr, alt))) for alt in ([("<", pc)], [("<", po)]))
             ctx.decide(ok_adv and exact, "C14-R3", C.line(fn), GEO, "ks_assign_hydrogens", "fallback path H = N is taken exactly when the previous C or O is missing", "",
-                       "the hydrogen is left on the nitrogen under %s: a residue whose predecessor still has its C=O (but lacks another atom) loses the N-H direction and with it its hydrogen bonds" % [c for c, p_ in o.cvals])
+                       "the hydrogen is left on the nitrogen under %s: a residue whose predecessor still has its C=O (but lacks another atom) loses the N-H direction and with it its hydrogen bonds" % shown)
         else:
             want = [N[k] + Rat(Poly.const(1)) / 10 * d[k] / norm for k in range(3)]
             ok = all(H[k] is not None and _close_forms(H[k], want[k], tol=1e-6) for k in range(3)) and ok_adv
             seen["oriented"] += 1
-            neg = [re.sub(r"\s", "", c) for c, p_ in o.cvals if not p_ and "<" in c]
-            ok = ok and len(neg) == 1 and "nco_indices[-2+3*ri]<0" in neg[0] and "nco_indices[-1+3*ri]<0" in neg[0]
+            ok = ok and has_fact(facts, "==", sk) and has_fact(facts, "<=", zero - pc) and has_fact(facts, "<=", zero - po)
             ctx.decide(ok, "C14-R3", C.line(fn), GEO, "ks_assign_hydrogens", "H = N + 0.1 nm * (C' - O')/|C' - O'| of the previous residue", "",
-                       "the hydrogen position on path %s is %s" % (o.conds, repr(H[0])[:160]))
+                       "the hydrogen position on path %s is %s" % (shown, repr(H[0])[:160]))
     ctx.decide(seen == {"on_N": 1, "oriented": 1, "skipped": 1}, "C14-R3", C.line(fn), GEO, "ks_assign_hydrogens", "three paths: skipped / H on N / H along the previous C=O", "", "paths found: %s" % seen)
